@@ -1356,6 +1356,7 @@ impl Exec {
                 "ok".into()
             }
             t if t.starts_with("eda.") => self.step_eda(toks),
+            t if t.starts_with("ref.") || t.starts_with("lit.") || t.starts_with("pair.") => self.step_bits(toks),
             t if t.starts_with("t.") => self.step_table(toks),
             t if t.starts_with("tn.") => self.step_tnode(toks),
             t if t.starts_with("c.") => self.step_cache(toks),
@@ -2232,9 +2233,32 @@ impl Exec {
                 }
                 let rs: Vec<Ref> = idx.iter().map(|&i| self.env[i]).collect();
                 let alive = self.reach(&rs);
+                let last_before = self.bdd().storage().size();
+                let occ_before: Vec<bool> = (0..=last_before).map(|i| self.bdd().storage().cell_flags(i).0).collect();
                 let r = catch_unwind(AssertUnwindSafe(|| self.bdd().collect_garbage(&rs)));
                 match r {
                     Ok(()) => {
+                        // C17 / C05 / C06: the sweep frees exactly the cells outside the survivor set
+                        {
+                            let mut freed_live = vec![];
+                            let mut kept_dead = vec![];
+                            for i in 2..=last_before {
+                                let occ = self.bdd().storage().cell_flags(i).0;
+                                let live = alive.contains(&(i as u32));
+                                if occ_before[i] && live && !occ && freed_live.len() < 4 {
+                                    freed_live.push(i);
+                                }
+                                if occ_before[i] && !live && occ && kept_dead.len() < 4 {
+                                    kept_dead.push(i);
+                                }
+                            }
+                            if !freed_live.is_empty() {
+                                self.fail(&["C17", "C05"], format!("the collection freed the cells {:?}, which are reachable from the roots", freed_live));
+                            }
+                            if !kept_dead.is_empty() {
+                                self.fail(&["C17", "C06"], format!("the collection kept the cells {:?}, which are not reachable from the roots", kept_dead));
+                            }
+                        }
                         // liveness of the named handles
                         for i in 0..self.env.len() {
                             if self.live[i] && !alive.contains(&self.env[i].index()) {
@@ -2431,7 +2455,152 @@ impl Exec {
                     Err(p) => format!("panic {}", panic_class(p)),
                 }
             }
+            // the link word of a cell: `set_next` must not disturb the occupied flag and reads back
+            "t.setnext" => {
+                let i: usize = toks[1].parse().unwrap();
+                let n: usize = toks[2].parse().unwrap();
+                if i >= self.table.capacity() {
+                    return "bad-op".into();
+                }
+                let occ0 = self.table.cell_flags(i).0;
+                let r = catch_unwind(AssertUnwindSafe(|| self.table.set_next(i, n)));
+                match r {
+                    Ok(()) => {
+                        let (occ, nx) = self.table.cell_flags(i);
+                        if occ != occ0 {
+                            self.fail(&["C17"], format!("set_next({}, {}) changed the occupied flag of the cell", i, n));
+                        }
+                        if nx != n || (i != 0 && self.table.next(i) != n) {
+                            self.fail(&["C17"], format!("set_next({}, {}) reads back as {}", i, n, nx));
+                        }
+                        format!("next={} occ={}", nx, occ as u8)
+                    }
+                    Err(p) => format!("panic {}", panic_class(p)),
+                }
+            }
+            // the value accessors that bypass hashing (`set_value`, `value_mut`, `IndexMut`; `value`, `Index`)
+            "t.setvalue" => {
+                let i: usize = toks[1].parse().unwrap();
+                let v: u64 = toks[2].parse().unwrap();
+                let how: u32 = toks[3].parse().unwrap();
+                if i >= self.table.capacity() {
+                    return "bad-op".into();
+                }
+                let it = Item { v, kind: self.item_kind };
+                let r = catch_unwind(AssertUnwindSafe(|| match how {
+                    0 => self.table.set_value(i, it),
+                    1 => *self.table.value_mut(i) = it,
+                    _ => self.table[i] = it,
+                }));
+                match r {
+                    Ok(()) => {
+                        let a = self.table.value(i).v;
+                        let b = self.table[i].v;
+                        if a != v || b != v {
+                            self.fail(&["C17"], format!("cell {} reads back {} / {} after writing {}", i, a, b, v));
+                        }
+                        format!("{} {}", a, b)
+                    }
+                    Err(p) => format!("panic {}", panic_class(p)),
+                }
+            }
             "t.dump" => table_snapshot(&self.table, |it: &Item| it.v.to_string()),
+            _ => "bad-op".into(),
+        }
+    }
+
+    // ------------------------------------------------------------------ packed words, literals, pairing functions
+
+    fn step_bits(&mut self, toks: &[&str]) -> String {
+        match toks[0] {
+            // `Ref::new(i, n)` and everything that reads the packed word
+            "ref.new" => {
+                let i: u32 = toks[1].parse().unwrap();
+                let n = toks[2] == "1";
+                if i == 0 || i >= 0x8000_0000 {
+                    return "bad-op".into();
+                }
+                let r = Ref::new(i, n);
+                let m = -r;
+                if r.index() != i || r.is_negated() != n {
+                    self.fail(&["C01"], format!("Ref::new({}, {}) reads back as index {} negated {}", i, n, r.index(), r.is_negated()));
+                }
+                if m.index() != i || m.is_negated() == n || -m != r || m == r {
+                    self.fail(&["C01"], format!("negation of Ref::new({}, {}) is {} (index {}, negated {}); twice: {}", i, n, m, m.index(), m.is_negated(), -m));
+                }
+                if (r == Ref::positive(i)) != !n || (r == Ref::negative(i)) != n {
+                    self.fail(&["C01"], format!("Ref::new({}, {}) against positive/negative", i, n));
+                }
+                self.nontrivial.insert(fnv1a(&format!("ref {} {}", i, n)));
+                format!("h={} idx={} neg={} nh={} nidx={} nneg={} disp={} ndisp={}", r.hash(), r.index(), r.is_negated() as u8, m.hash(), m.index(), m.is_negated() as u8, r, m)
+            }
+            // a one-literal cube: which variable, which polarity
+            "lit.cube" => {
+                let lit: i32 = toks[1].parse().unwrap();
+                if lit == 0 || lit == i32::MIN {
+                    return "bad-op".into();
+                }
+                let r = catch_unwind(|| {
+                    let b = Bdd::new(4);
+                    let c = b.cube([lit]);
+                    let d = b.clause([lit]);
+                    (b.variable(c.index()), c.is_negated(), b.variable(d.index()), d.is_negated())
+                });
+                match r {
+                    Ok((v, neg, v2, neg2)) => {
+                        if v as u64 != lit.unsigned_abs() as u64 || neg != (lit < 0) || v2 != v || neg2 != neg {
+                            self.fail(&["C15"], format!("cube([{}]) is the literal of variable {} negated {}; clause: variable {} negated {}", lit, v, neg, v2, neg2));
+                        }
+                        self.nontrivial.insert(fnv1a(&format!("litcube {}", lit)));
+                        format!("var={} neg={}", v, neg as u8)
+                    }
+                    Err(p) => format!("panic {}", panic_class(p)),
+                }
+            }
+            // one_sat / paths of a single variable: the literal that comes back
+            "lit.onesat" => {
+                let v: u32 = toks[1].parse().unwrap();
+                let neg = toks[2] == "1";
+                if v == 0 || v == 0x8000_0000 {
+                    return "bad-op".into();
+                }
+                let r = catch_unwind(|| {
+                    let b = Bdd::new(4);
+                    let x = b.mk_var(v);
+                    let f = if neg { -x } else { x };
+                    (b.one_sat(f), b.paths(f).collect::<Vec<_>>())
+                });
+                match r {
+                    Ok((one, paths)) => {
+                        let want = if neg { -(v as i64) } else { v as i64 };
+                        if v < 0x8000_0000 {
+                            if one.as_deref().map(|p| p.iter().map(|&l| l as i64).collect::<Vec<_>>()) != Some(vec![want]) {
+                                self.fail(&["C14"], format!("one_sat of the literal {} of variable {} = {:?}", want, v, one));
+                            }
+                            if paths.iter().map(|p| p.iter().map(|&l| l as i64).collect::<Vec<_>>()).collect::<Vec<_>>() != vec![vec![want]] {
+                                self.fail(&["C14"], format!("paths of the literal {} of variable {} = {:?}", want, v, paths));
+                            }
+                        }
+                        self.nontrivial.insert(fnv1a(&format!("litsat {} {}", v, neg)));
+                        format!("{:?} {:?}", one, paths)
+                    }
+                    Err(p) => format!("panic {}", panic_class(p)),
+                }
+            }
+            // the pairing functions of utils.rs that the manager itself does not use
+            "pair.cantor" | "pair.hopcroft" | "pair.four" => {
+                let a: Vec<u64> = toks[1..].iter().map(|t| t.parse().unwrap()).collect();
+                let which = toks[0].to_string();
+                let r = catch_unwind(move || match which.as_str() {
+                    "pair.cantor" => bdd_rs::utils::pairing_cantor(a[0], a[1]),
+                    "pair.hopcroft" => bdd_rs::utils::pairing_hopcroft(a[0], a[1]),
+                    _ => bdd_rs::utils::pairing4(a[0], a[1], a[2], a[3]),
+                });
+                match r {
+                    Ok(x) => x.to_string(),
+                    Err(p) => format!("panic {}", panic_class(p)),
+                }
+            }
             _ => "bad-op".into(),
         }
     }
